@@ -178,13 +178,37 @@ type Result struct {
 
 // ---- execution -------------------------------------------------------------------------------
 
-// RunDirBase is where run directories are created.
-var RunDirBase = func() string {
+// RealRunDir is this process' private scratch directory. RunDirBase is the path under which
+// run directories are named: once InitRunDir has made RealRunDir the working directory it is
+// "/proc/self/cwd", a path STRING that is the same in every process and run. sop derives cache
+// and lock keys from the store folder path, and the in-memory L2 cache picks a shard by hashing
+// the key: with the process id in the path, which entries collide in a 1-4 entry shard (and so
+// what gets evicted) changed from process to process - found by the determinism self-test.
+var RealRunDir = func() string {
 	if fi, err := os.Stat("/dev/shm"); err == nil && fi.IsDir() {
 		return fmt.Sprintf("/dev/shm/verif-%d", os.Getpid())
 	}
 	return filepath.Join(os.TempDir(), fmt.Sprintf("verif-%d", os.Getpid()))
 }()
+
+var RunDirBase = RealRunDir
+
+func InitRunDir() {
+	if err := os.MkdirAll(RealRunDir, 0o755); err != nil {
+		return
+	}
+	if err := os.Chdir(RealRunDir); err != nil {
+		return
+	}
+	if _, err := os.Stat("/proc/self/cwd"); err == nil {
+		RunDirBase = "/proc/self/cwd"
+	}
+}
+
+func cleanupRunDir() {
+	os.Chdir("/")
+	os.RemoveAll(RealRunDir)
+}
 
 var runCounter int
 
@@ -211,7 +235,7 @@ var keepLog = os.Getenv("VERIF_KEEPLOG") != ""
 // NewEnv creates the simulator, world and store folder for a case.
 func NewEnv(c *Case) (*Env, error) {
 	runCounter++
-	dir := filepath.Join(RunDirBase, fmt.Sprintf("r%d", runCounter))
+	dir := filepath.Join(RunDirBase, "r") // one run at a time per process: the name (and so every key derived from it) is fixed
 	os.RemoveAll(dir)
 	s := sim.New(c.simConfig())
 	w, err := sim.NewWorld(s, dir)
